@@ -136,6 +136,32 @@ def pinned_sched_cases():
                 c["pct"] = [3, 200]
             out.append((c, {"targets": targets, "labels": True, "K": False, "streams": streams,
                             "strategy": strat, "abandoned": [], "pinned": "%s-ends-first" % early}))
+    # ALL WORKERS DO THE SAME STEP AT THE SAME MOMENT: four hosts whose stdout and stderr consist of one unterminated
+    # fragment each (distinct bytes, distinct lengths), everything there from the start, every wrapped call a
+    # scheduling point -- the workers reach `_flush_output` (and, in the second form, `_flush_lines` on one long line
+    # each) together, so anything they SHARE there (a static buffer, a global index) shows as one host's label in
+    # front of another host's bytes.  Fixed seeds: what these schedules catch does not depend on VERIF_SEED.
+    for form in ("tails", "long-lines"):
+        for strat, seeds in (("uniform", range(1, 11)), ("pct", range(1, 7))):
+            for seed in seeds:
+                targets = [b"ta", b"tb", b"tc", b"td"]
+                hosts, streams = [], {}
+                for i, t in enumerate(targets):
+                    if form == "tails":
+                        o_payload = t + b" stdout fragment " + bytes([65 + i]) * (9 + 7 * i)
+                        e_payload = t + b" stderr fragment " + bytes([97 + i]) * (5 + 3 * i)
+                    else:
+                        o_payload = t + b" long " + bytes([65 + i]) * (2100 + 50 * i) + b"\n" + t + b" end"
+                        e_payload = t + b" e " + bytes([97 + i]) * (2050 + 10 * i) + b"\n"
+                    hosts.append({"name": t.decode(), "out": [[0, hexs(o_payload)]], "err": [[0, hexs(e_payload)]]})
+                    streams[(i, "o")] = o_payload
+                    streams[(i, "e")] = e_payload
+                c = {"fanout": 4, "hosts": hosts, "seed": seed, "yield": "all", "inline": 0, "budget": 60000,
+                     "opts": {"labels": 1, "sopt": 1, "K": 0}, "strategy": strat, "tickrate": 0}
+                if strat == "pct":
+                    c["pct"] = [2 + seed % 4, 400]
+                out.append((c, {"targets": targets, "labels": True, "K": False, "streams": streams, "strategy": strat,
+                                "abandoned": [], "pinned": "same-step-%s" % form}))
     # a descriptor in ERROR (poll(2) says POLLERR and nothing else; the read then fails with EIO): xpoll must hand it
     # on as XPOLLERR and the loop must call the handler for it (`revents & (XPOLLREAD|XPOLLERR)`) -- otherwise the
     # loop spins on the descriptor for ever.  The handler prints its diagnostic, closes the descriptor, and everything
